@@ -1,10 +1,10 @@
-"""C04 (under construction)"""
-from ..common import Report
-from .. import t1
+"""C04 driver (see DESIGN.md section 3, C04)."""
+from .generic import run_property, replay_property
 
 
 def run(tier):
-    rep = Report("C04", tier, level="other")
-    rep.explanation = "under construction"
-    t1.run_t1(rep, ["vt.contracts.utils_maxcounter"], pid="C04", quick=(tier == "quick"))
-    return rep.finish()
+    return run_property("C04", tier)
+
+
+def replay(path):
+    return replay_property("C04", path)
